@@ -1,4 +1,5 @@
 import AcryoVerif.Py
+import AcryoVerif.Gen.Sched
 
 /-!
 Model of `TemplateMaskCache` (`acryo/alignment/_base.py`), the only mutable state shared by the
@@ -75,5 +76,8 @@ def step (byModule : Bool) (s : CState) (i : Nat) : CState :=
 def run (byModule : Bool) (s : CState) (schedule : List Nat) : CState := schedule.foldl (step byModule) s
 
 def freshThreads (keys : List BKey) : List Thread := keys.map fun k => ⟨k, .running 0 0⟩
+
+/-- key equality as the current source defines it -/
+def sameKey (a b : BKey) : Bool := BKey.same Gen.backendEqByModule a b
 
 end Model
